@@ -137,7 +137,7 @@ Proof.
 Qed.
 
 Lemma read_val_err x r d e : read_val x r d = inr e -> e = ESchema.
-Proof. destruct r; cbn; intros H; try discriminate. destruct (is_good (d_models d)); [discriminate|inversion H; auto]. Qed.
+Proof. destruct r; cbn; intros H; try discriminate; destruct (is_good (d_models d)); try discriminate; inversion H; auto. Qed.
 
 Lemma exec_inv c tid t s k' a :
   Forall nonnone (c_store c) ->
@@ -170,6 +170,7 @@ Proof.
     all: try (match goal with H : read_val _ _ _ = inr _ |- _ => apply read_val_err in H; subst end; repeat split; auto).
     all: try (match goal with H : apply_wr _ _ _ = inr _ |- _ => apply apply_wr_err in H; destruct H as [H|H]; subst; cbn in Hck; try discriminate end; repeat split; auto).
     all: try congruence.
+    all: try (cbn in Hck; discriminate).
   - (* MD0 *) subst l.
     destruct s as [|h| |[]|rd dst|w| | |r b]; cbn in Hck; try discriminate; unfold exec_post, exec, mk; cbn;
       rewrite ?Hp, ?Hd; cbn.
@@ -182,6 +183,7 @@ Proof.
     all: try (match goal with H : read_val _ _ _ = inr _ |- _ => apply read_val_err in H; subst end; repeat split; auto).
     all: try (match goal with H : apply_wr _ _ _ = inr _ |- _ => apply apply_wr_err in H; destruct H as [H|H]; subst; cbn in Hck; try discriminate end; repeat split; auto).
     all: try congruence.
+    all: try (cbn in Hck; discriminate).
   - (* MD1 *) subst l.
     destruct s as [|h| |[]|rd dst|w| | |r b]; cbn in Hck; try discriminate; unfold exec_post, exec, mk; cbn;
       rewrite ?Hp, ?Hd; cbn.
@@ -194,6 +196,7 @@ Proof.
     all: try (match goal with H : read_val _ _ _ = inr _ |- _ => apply read_val_err in H; subst end; repeat split; auto).
     all: try (match goal with H : apply_wr _ _ _ = inr _ |- _ => apply apply_wr_err in H; destruct H as [H|H]; subst; cbn in Hck; try discriminate end; repeat split; auto).
     all: try congruence.
+    all: try (cbn in Hck; discriminate).
   - (* MW *)
     destruct l; cbn in Hl; try discriminate.
     all: destruct s as [|h| |[]|rd dst|w| | |r b]; cbn in Hck; try discriminate; unfold exec_post, exec, mk; cbn;
@@ -207,6 +210,7 @@ Proof.
     all: try (match goal with H : read_val _ _ _ = inr _ |- _ => apply read_val_err in H; subst end; repeat split; auto).
     all: try (match goal with H : apply_wr _ _ _ = inr _ |- _ => apply apply_wr_err in H; destruct H as [H|H]; subst; cbn in Hck; try discriminate end; repeat split; auto).
     all: try congruence.
+    all: try (cbn in Hck; discriminate).
 Qed.
 
 Lemma tinv_of_nth len ts tid t : Forall (tinv len) ts -> nth_error ts tid = Some t -> tinv len t.
